@@ -335,6 +335,24 @@ func Targets(full bool) []Target {
 	add(Target{Name: "JWT-HS512", Class: "jwtmac", Params: kp(jwthmac.NewParameters(64, jwthmac.IgnoredKID, jwthmac.HS512))})
 	add(Target{Name: "KDERIV-HKDFSHA256-AES128GCM", Class: "kderiv",
 		Params: kp(prfbasedkeyderivation.NewParameters(kp(hkdfprf.NewParameters(32, hkdfprf.SHA256, nil)), demGCM128Tink()))})
+	// one deriver target per derivable key type (keyderivation/internal/keyderivers: AES-GCM, XChaCha20-Poly1305, AES-SIV,
+	// HMAC, HKDF-PRF, HMAC-PRF, Ed25519, AES-GCM-HKDF streaming)
+	kdPRF := func() key.Parameters { return kp(hkdfprf.NewParameters(32, hkdfprf.SHA256, nil)) }
+	edTink := must(ed25519.NewParameters(ed25519.VariantTink))
+	for _, c := range []struct {
+		n string
+		p key.Parameters
+	}{
+		{"XCHACHA20POLY1305", kp(xchacha20poly1305.NewParameters(xchacha20poly1305.VariantTink))},
+		{"AES256GCM-NO_PREFIX", kp(aesgcm.NewParameters(aesgcm.ParametersOpts{KeySizeInBytes: 32, IVSizeInBytes: 12, TagSizeInBytes: 16, Variant: aesgcm.VariantNoPrefix}))},
+		{"AESSIV", kp(aessiv.NewParameters(64, aessiv.VariantTink))},
+		{"HKDFPRF", kp(hkdfprf.NewParameters(32, hkdfprf.SHA512, []byte("s")))},
+		{"HMACPRF", kp(hmacprf.NewParameters(32, hmacprf.SHA256))},
+		{"ED25519", &edTink},
+		{"STREAM-AESGCMHKDF", kp(saeadgcm.NewParameters(saeadgcm.ParametersOpts{KeySizeInBytes: 32, DerivedKeySizeInBytes: 16, HKDFHashType: saeadgcm.SHA256, SegmentSizeInBytes: 4096}))},
+	} {
+		add(Target{Name: "KDERIV-HKDFSHA256-" + c.n, Class: "kderiv", Params: kp(prfbasedkeyderivation.NewParameters(kdPRF(), c.p))})
+	}
 	add(Target{Name: "KDERIV-HKDFSHA512-HMAC", Class: "kderiv",
 		Params: kp(prfbasedkeyderivation.NewParameters(kp(hkdfprf.NewParameters(64, hkdfprf.SHA512, []byte{1, 2, 3})),
 			kp(hmac.NewParameters(hmac.ParametersOpts{KeySizeInBytes: 32, TagSizeInBytes: 32, HashType: hmac.SHA256, Variant: hmac.VariantTink}))))})
